@@ -1121,6 +1121,7 @@ def twin_mc(ctx, twin):
 
 # ----------------------------------------------------------------------------- Gen (C12-C14)
 
+UNI_WS = ["\u00a0", "\u3000", "\u2003", "\x0b", "\x0c", "\u0085", "\t", "\u2028"]
 GEN_FOCUS = ["Builtin", "CallArgs", "StrCall", "DQuoted", "MacroDef", "DoBlock", "MacroStmt"]
 
 
@@ -1189,6 +1190,18 @@ def run_gen_prop(ctx):
         seen.add(key)
         cid = "g%d" % len(ctx.cases)
         ctx.cases[cid] = {"id": cid, "src": src, "exps": j["exps"], "fault": j["fault"], "fam": "gen"}
+        # the same derivation with its insignificant single blanks replaced by other White_Space characters (same length
+        # in code points, so the expectations stay where they are); every sixth program
+        if not fault and len(ctx.cases) % 6 == 0:
+            chars = list(src)
+            hit = False
+            for e in j["exps"]:
+                if e["k"] == "ws" and e["ty"] == " " and e["n"] == 1 and e["o"] < len(chars) and chars[e["o"]] == " ":
+                    chars[e["o"]] = ctx.rng.choice(UNI_WS)
+                    hit = True
+            if hit:
+                cid = "g%d" % len(ctx.cases)
+                ctx.cases[cid] = {"id": cid, "src": "".join(chars), "exps": j["exps"], "fault": j["fault"], "fam": "gen-unicode-ws"}
     ctx.families["gen"] = len(ctx.cases)
     ctx.extra["generator"] = stats
     if fault:
@@ -1245,7 +1258,14 @@ def binding_leg(ctx, paths):
     never a verdict."""
     if ctx.replay_case is not None:
         return
-    mon = common.monitor("CONF", paths, ctx.dir, workers_each=2, parallel=8)
+    try:
+        mon = common.monitor("CONF", paths, ctx.dir, workers_each=2, parallel=8)
+    except ToolError as e:
+        # the conformance operators follow the recorded states; a recorded state outside the text (possible only when
+        # the code is wrong) can make them undefined.  That is drift of the worst kind, not a tool failure of the check.
+        ctx.extra["conformance_of_these_executions"] = {"status": "not evaluable on these records", "detail": str(e)[:300]}
+        log("[%s] conformance of these executions with the model: NOT EVALUABLE (recorded states outside the text?)" % ctx.prop)
+        return
     ctx.states += mon["states"]
     ctx.transitions += mon["transitions"]
     drift = sorted({cid for cid, clause, cnt, wit in mon["verdicts"]})
